@@ -190,6 +190,13 @@ func genC11(r *core.Run, i int) *c11Case {
 				if sg.Dump.F.CRLF != (eol == "\r\n") {
 					c.T0 = gen.BinStr(gen.Junk(rr, &gen.JunkCfg{Separators: true}, rr.Intn(6), sg.Dump.EOL()))
 				}
+				if sg.Dump.F.Indent == "" && !sg.Dump.F.TrailBlank && !sg.Dump.F.NoFinalEOL && rr.Chance(1, 4) {
+					// the next dump follows without an empty line (a collector that drops them): its header is the first
+					// line that cannot belong to this dump, the snapshot is due as soon as that line is there
+					d2 := gen.GenDump(rr, &gen.Cfg{MaxG: 2, MaxFrames: 2, MaxDepth: 1, FixedFmt: &gen.Format{CRLF: sg.Dump.F.CRLF, FileIndent: "\t"}}, 0)
+					d2.F.NoFinalEOL = false
+					c.T1 = gen.BinStr(d2.Render())
+				}
 			}
 		}
 	}
